@@ -93,8 +93,11 @@ def gen_logs(rng, hostile=True):
     return logs
 
 
-def gen_tables(rng):
-    tabs = {}
+def gen_tables(rng, with_inputs=False):
+    """-> {name: expected recarray}; with_inputs also {name: object handed to store_table}
+    (the recarray itself, or - as the writer documents - a dict of columns given as float /
+    integer / boolean arrays or lists of Python numbers, which is stored as float64 columns)."""
+    tabs, inputs = {}, {}
     for i in range(int(rng.integers(0, 3))):
         ncol = int(rng.integers(1, 5))
         nrow = int(rng.integers(1, 30))
@@ -103,10 +106,33 @@ def gen_tables(rng):
         data = rng.normal(size=(nrow, ncol))
         if rng.random() < 0.3:
             data[rng.random(data.shape) < 0.2] = np.nan
+        as_dict = with_inputs and rng.random() < 0.5
+        cols = {}
+        if as_dict:
+            all_int = rng.random() < 0.4
+            for j, nm in enumerate(names):
+                kind = int(rng.integers(1, 5)) if all_int else int(rng.integers(0, 6))
+                if kind == 0:
+                    cols[nm] = data[:, j].copy()
+                elif kind == 1:
+                    cols[nm] = rng.integers(-2 ** 40, 2 ** 40, nrow)
+                elif kind == 2:
+                    cols[nm] = [int(v) for v in rng.integers(0, 1000, nrow)]
+                elif kind == 3:
+                    cols[nm] = rng.integers(0, 60000, nrow).astype(np.uint16)
+                elif kind == 4:
+                    cols[nm] = np.arange(1, nrow + 1)
+                else:
+                    cols[nm] = [float(v) for v in data[:, j]]
+                data[:, j] = np.asarray(cols[nm], dtype=np.float64)
         rec = np.rec.array(np.zeros(nrow, dtype=dt))
         for j, nm in enumerate(names):
             rec[nm] = data[:, j]
         tabs[f"tab-{i}"] = rec
+        if as_dict:
+            inputs[f"tab-{i}"] = cols
+    if with_inputs:
+        return tabs, inputs
     return tabs
 
 
@@ -246,8 +272,10 @@ def gen_model(rng, n=None, kinds=None, hostile_logs=True, complete=True, max_sca
         feats["trace"] = traces
     meta = complete_meta(rng, feats, n, shape, traces) if complete else {
         "experiment": {"sample": "partial"}, "setup": {"channel width": 20.0}}
-    return {"n": n, "features": feats, "meta": meta,
-            "logs": gen_logs(rng, hostile_logs), "tables": gen_tables(rng)}
+    logs = gen_logs(rng, hostile_logs)
+    tabs, tab_inputs = gen_tables(rng, with_inputs=True)
+    return {"n": n, "features": feats, "meta": meta, "logs": logs, "tables": tabs,
+            "table_inputs": tab_inputs}
 
 
 def slice_feature(data, sl):
@@ -272,7 +300,7 @@ def write_model(path, model, mode="reset", compression=None, with_index=False):
         for name, lines in model["logs"].items():
             hw.store_log(name, lines)
         for name, tab in model["tables"].items():
-            hw.store_table(name, tab)
+            hw.store_table(name, model.get("table_inputs", {}).get(name, tab))
     return path
 
 
